@@ -407,6 +407,11 @@ def large_stdin_reads(ctx, tmpdir):
 
 def run_shard(ctx):
     conf = TIERS[ctx.tier]
+    if ctx.shard == ctx.nshards - 1 and not ctx.replay:
+        # the repository's own 579 tests as one more workload, with the passive audio-source monitor riding on every call they make
+        from .. import repotests
+
+        repotests.run(ctx, "source")
     tmpdir = tempfile.mkdtemp(prefix="vf-c11-")
     try:
         if ctx.shard in (4, 5):
@@ -445,5 +450,5 @@ def inconclusive(merged, tier):
     c = merged["counters"]
     need = ["chunks_checked", "reads_at_end", "io_errors_when_not_open", "position_reads", "position_sets", "position_index_errors",
             "negative_position_sets", "histories_buffer", "histories_raw", "histories_wav", "histories_stdin", "histories_stdin_file", "large_stdin_read_histories", "second_source_objects_on_one_stdin", "exhaustive_histories",
-            "ops_pos_s", "ops_pos_ms", "ops_rewind", "ops_close", "long_buffer_histories"]
+            "ops_pos_s", "ops_pos_ms", "ops_rewind", "ops_close", "long_buffer_histories", "repo_tests_source_reads_checked"]
     return [f"monitor never observed {k}" for k in need if c.get(k, 0) == 0]
